@@ -14,6 +14,7 @@ Line-protocol front end for the parameter-block / schedules / alerts / UID / pas
   p2dec ecomax|mixer|schedules|alerts|uid|password <hex>
   p2dec thermostat <T|none> <hex>
       -> `<decoded value> <bytes consumed>`  or  `E:<exception class>`
+  p2uidtext <uid hex>     -> `<UID text or - when empty> <crc16>`
 -/
 namespace PlumVerif.P2
 
@@ -151,6 +152,9 @@ def p2Ops : List String → Option String
     pure (match decodePassword bs with
       | .error e => "E:" ++ e.tag
       | .ok v => s!"{showPassword v} {bs.length}")
+  | ["p2uidtext", h] => do
+    let bs ← parseHex h
+    pure s!"{if (uidChars bs).isEmpty then "-" else uidString bs} {crc16 bs}"
   | _ => none
 
 end PlumVerif.P2
